@@ -12,11 +12,14 @@ import (
 	"errors"
 	"fmt"
 	"net/url"
+	"strconv"
 	"strings"
 
 	cstate "0chain.net/chaincore/chain/state"
 	"0chain.net/chaincore/smartcontract"
+	"0chain.net/chaincore/state"
 	"0chain.net/chaincore/transaction"
+	"github.com/0chain/common/core/currency"
 	"github.com/0chain/common/core/statecache"
 	"github.com/0chain/common/core/util"
 )
@@ -43,7 +46,7 @@ func (k *KV) CopyFrom(v interface{}) bool {
 
 // Op is one trie operation of a call.
 type Op struct {
-	Op string `json:"op"` // put | get | del | fail
+	Op string `json:"op"` // put | get | del | fund | pay | fail
 	K  string `json:"k,omitempty"`
 	V  string `json:"v,omitempty"`
 }
@@ -79,6 +82,18 @@ func (contract) Execute(t *transaction.Transaction, fn string, input []byte, b c
 			}
 		case "del":
 			if _, err := b.DeleteTrieNode(Key(o.K)); err != nil && err != util.ErrValueNotPresent {
+				return "", err
+			}
+		case "fund": // move the transaction's value from the sender into the contract's wallet (as staking contracts do)
+			if err := b.AddTransfer(state.NewTransfer(t.ClientID, Address, t.Value)); err != nil {
+				return "", err
+			}
+		case "pay": // transfer V tokens from the contract's wallet to account K (queued like any contract transfer)
+			amt, err := strconv.ParseUint(o.V, 10, 64)
+			if err != nil {
+				return "", err
+			}
+			if err := b.AddTransfer(state.NewTransfer(Address, o.K, currency.Coin(amt))); err != nil {
 				return "", err
 			}
 		case "fail":
